@@ -46,6 +46,50 @@ type Term struct {
 	Name   string // for Op=="var"
 	P1, P2 int    // extract hi, lo / extension amount
 	size   int
+	h      uint64 // structural hash
+}
+
+func hashStr(s string) uint64 {
+	h := uint64(1469598103934665603)
+	for i := 0; i < len(s); i++ {
+		h ^= uint64(s[i])
+		h *= 1099511628211
+	}
+	return h
+}
+
+func (t *Term) Hash() uint64 {
+	if t.h != 0 {
+		return t.h
+	}
+	h := hashStr(t.Op)*31 + uint64(t.S.K)*7 + uint64(t.S.W)*13 + t.C*1000003 + uint64(t.P1)*17 + uint64(t.P2)*19
+	if t.Name != "" {
+		h ^= hashStr(t.Name)
+	}
+	for _, a := range t.Args {
+		h = h*1099511628211 + a.Hash()
+	}
+	if h == 0 {
+		h = 1
+	}
+	t.h = h
+	return h
+}
+
+// structEq: structural equality (hash-guided).
+func structEq(a, b *Term) bool {
+	if a == b {
+		return true
+	}
+	if a.Hash() != b.Hash() || a.Op != b.Op || a.S != b.S || a.C != b.C || a.Name != b.Name || a.P1 != b.P1 || a.P2 != b.P2 || len(a.Args) != len(b.Args) {
+		return false
+	}
+	for i := range a.Args {
+		if !structEq(a.Args[i], b.Args[i]) {
+			return false
+		}
+	}
+	return true
 }
 
 func (t *Term) IsConst() bool { return t.Op == "const" }
